@@ -303,11 +303,15 @@ class PDFXRefStream(PDFBaseXRef):
         return self.trailer
 
     def get_objids(self) -> Iterator[int]:
+        # The entries of all subsections are stored back to back: the entry
+        # index keeps counting across the (start, nobjs) ranges of /Index.
+        index = 0
         for start, nobjs in self.ranges:
             for i in range(nobjs):
                 assert self.entlen is not None
                 assert self.data is not None
-                offset = self.entlen * i
+                offset = self.entlen * index
+                index += 1
                 ent = self.data[offset : offset + self.entlen]
                 f1 = nunpack(ent[: self.fl1], 1)
                 if f1 == 1 or f1 == 2:
